@@ -37,6 +37,29 @@
 //     not valid UTF-8 are outside the model).
 //   - crypto.Signer is an opaque handle (`CryptoSigner`), cryptobyte.String a byte list,
 //     asn1.ObjectIdentifier a list of Int (only outside struct fields, where they stay `Opaque`).
+//   - `for init; cond; post { body }` uses the fuel mechanism of `for cond {}`: init before the loop, cond at
+//     the top of every turn, post at the end of every turn and before every `continue`. When the trip count is
+//     evidently bounded (`for i := a; i < B; i++` / `i += c`, c > 0, with neither i nor a variable of B assigned
+//     in the body) the fuel is `(B - i).toNat + 1`, computed where the loop starts; otherwise the function takes
+//     a fuel argument.
+//   - `a &^ b`: `a &&& ~~~b` on the unsigned types; `intAndNot a b` on `int` (exact for Go's 64-bit
+//     two's-complement ints: computed in `BitVec 64`).
+//   - `b.Read(buf)` on a *bytes.Buffer (or a type defined as bytes.Buffer) / *bytes.Reader — decided by the static
+//     type of b — is `bufRead` / `rdrRead`: buf keeps its length, its first min(len(buf), available) bytes are
+//     overwritten; the results are (n, err) with io.EOF exactly as the two types return it. `Read` on a plain
+//     io.Reader is REJECTED (a short read is possible there, the translation would not be faithful).
+//     `io.ReadFull(r, buf)` is `readFull` on every reader (a reader that does not fail delivers min(len(buf),
+//     available) bytes through ReadFull however it chunks them).
+//   - `xs[k]` and `binary.{Little,Big}Endian.UintN(xs)` panic in Go when xs is too short. They are translated
+//     (`xs.getD k 0`, `decLE16 xs` …) ONLY when the index is evidently in range, and rejected otherwise (no silent
+//     default): the length of xs is evident when xs is a slice/array literal, has an array type, is a constant
+//     slice expression of such a value, or is a local variable ALL of whose assignments in the function give it
+//     the same constant length (`make([]byte, 2)`, a literal; Read / ReadFull / binary.Read fill it in place and
+//     keep the length). A variable index is evidently in range inside `for i := a; i < len(xs); i++` (a ≥ 0
+//     constant, neither i nor xs assigned in the body).
+//   - `fmt.Sprintf` with a constant format made of literal text, `%%` and the verbs %s %v (strings), %d %v
+//     (integers), %x %X %0Nx %0NX (integers) is a concatenation over `fmtDec` / `fmtHex` / `fmtHexI`; an argument
+//     whose type has a String/Error/Format/GoString method, any other verb or flag → rejected.
 package main
 
 import (
@@ -456,6 +479,7 @@ type fnTrans struct {
 	// where the literal stands (bound to x_0, x_1, …), as synthetic identifiers
 	ifaceLits map[types.Object][]ast.Expr
 	sites     map[*ast.CallExpr]int // interface-method call sites -> index
+	bounded   []*boundedFor         // the evidently bounded three-clause loops around the current statement
 }
 
 type rangeInfo struct {
@@ -800,6 +824,9 @@ func (t *fnTrans) expr(e ast.Expr) string {
 			return "(-" + t.expr(x.X) + ")"
 		}
 	case *ast.BinaryExpr:
+		if x.Op == token.AND_NOT {
+			return t.andNot(e, t.typeOf(e), t.expr(x.X), t.expr(x.Y))
+		}
 		op, cmp, prop := binop(x.Op)
 		if op == "" {
 			fail(e, "operator %s", x.Op)
@@ -842,6 +869,9 @@ func (t *fnTrans) expr(e ast.Expr) string {
 		}
 		if prop {
 			return fmt.Sprintf("(decide (%s %s %s))", l, op, r)
+		}
+		if x.Op == token.ADD && isStringType(t.typeOf(e)) {
+			op = "++" // string concatenation
 		}
 		return fmt.Sprintf("(%s %s %s)", l, op, r)
 	case *ast.SelectorExpr:
@@ -919,10 +949,30 @@ func (t *fnTrans) expr(e ast.Expr) string {
 				return r.elem
 			}
 		}
-		fail(e, "index expression other than collection[loop index]")
+		return t.indexExpr(x)
 	}
 	fail(e, "unsupported expression %T", e)
 	return ""
+}
+
+// andNot: Go's `a &^ b`
+func (t *fnTrans) andNot(n ast.Node, ty types.Type, l, r string) string {
+	if b, ok := ty.Underlying().(*types.Basic); ok {
+		switch b.Kind() {
+		case types.Uint8, types.Uint16, types.Uint32, types.Uint64:
+			return fmt.Sprintf("(%s &&& ~~~%s)", l, r)
+		case types.Int, types.Int64, types.UntypedInt:
+			// exact for Go's 64-bit two's-complement ints (prelude: computed in BitVec 64)
+			return fmt.Sprintf("(intAndNot %s %s)", l, r)
+		}
+	}
+	fail(n, "operator &^ on %s", ty)
+	return ""
+}
+
+func isStringType(t types.Type) bool {
+	b, ok := t.Underlying().(*types.Basic)
+	return ok && b.Info()&types.IsString != 0
 }
 
 func leanTypeIs(t types.Type, want string) bool {
@@ -955,6 +1005,10 @@ func (t *fnTrans) zero(n ast.Node, ty types.Type) string {
 	case *types.Struct:
 		var z []string
 		for i := 0; i < u.NumFields(); i++ {
+			if fieldType(n, u.Field(i).Type()) == "Opaque" {
+				z = append(z, "(⟨⟩ : Opaque)")
+				continue
+			}
 			z = append(z, t.zero(n, u.Field(i).Type()))
 		}
 		return fmt.Sprintf("(⟨%s⟩ : %s)", strings.Join(z, ", "), leanType(n, ty))
@@ -1036,6 +1090,12 @@ func (t *fnTrans) call(c *ast.CallExpr) string {
 			_ = fb
 		}
 		if fb, ok := from.Underlying().(*types.Basic); ok && fb.Info()&types.IsString != 0 {
+			if tb, ok := to.Underlying().(*types.Basic); ok && tb.Info()&types.IsString != 0 {
+				// between string types (`Efistring(s)`, `string(es)`): the same Lean String
+				return t.expr(arg)
+			}
+		}
+		if fb, ok := from.Underlying().(*types.Basic); ok && fb.Info()&types.IsString != 0 {
 			if sl, ok := to.Underlying().(*types.Slice); ok {
 				if eb, ok := sl.Elem().Underlying().(*types.Basic); ok && eb.Kind() == types.Uint8 {
 					// []byte(s): the bytes of the Go string = the UTF-8 encoding of the Lean string
@@ -1103,6 +1163,11 @@ func (t *fnTrans) call(c *ast.CallExpr) string {
 		if nm, ok := t.errVarName(c.Args[1]); ok {
 			return fmt.Sprintf("(errIs %s %q)", t.expr(c.Args[0]), nm)
 		}
+	case "fmt.Sprintf":
+		return t.sprintf(c)
+	}
+	if s, ok := t.byteOrderCall(c); ok {
+		return s
 	}
 	if se, ok := c.Fun.(*ast.SelectorExpr); ok && se.Sel.Name == "Bytes" && len(c.Args) == 0 {
 		if _, isR := t.readerVar(se.X); isR && isReaderType(t.typeOf(se.X)) {
@@ -1292,12 +1357,22 @@ func markMutCall(info *types.Info, e ast.Expr, into map[types.Object]bool) {
 		if o := rootVar(info, c.Args[0]); o != nil {
 			into[o] = true
 		}
+		if qualName(c, info) == "io.ReadFull" && len(c.Args) == 2 {
+			if o := rootVar(info, c.Args[1]); o != nil {
+				into[o] = true // the buffer is filled in place
+			}
+		}
 	}
 	if se, ok := c.Fun.(*ast.SelectorExpr); ok {
 		switch se.Sel.Name {
 		case "Read", "Next", "ReadByte", "Write", "WriteByte":
 			if o := rootVar(info, se.X); o != nil && isReaderType(o.Type()) {
 				into[o] = true
+				if se.Sel.Name == "Read" && len(c.Args) == 1 {
+					if bo := rootVar(info, c.Args[0]); bo != nil {
+						into[bo] = true // the buffer is filled in place
+					}
+				}
 			}
 		}
 	}
@@ -1623,10 +1698,15 @@ func (t *fnTrans) assignStmt(x *ast.AssignStmt) string {
 			op = token.OR
 		case token.AND_ASSIGN:
 			op = token.AND
+		case token.AND_NOT_ASSIGN:
+			return t.assign(x, x.Lhs[0], t.andNot(x, t.typeOf(x.Lhs[0]), t.expr(x.Lhs[0]), t.expr(x.Rhs[0])))
 		default:
 			fail(x, "compound assignment %s", x.Tok)
 		}
 		lop, _, _ := binop(op)
+		if op == token.ADD && isStringType(t.typeOf(x.Lhs[0])) {
+			lop = "++"
+		}
 		return t.assign(x, x.Lhs[0], fmt.Sprintf("(%s %s %s)", t.expr(x.Lhs[0]), lop, t.expr(x.Rhs[0])))
 	}
 	if len(x.Rhs) == 1 && len(x.Lhs) >= 1 {
